@@ -237,6 +237,10 @@ func c18Scens(tier string) []e1Scen {
 			}
 			cfg.MaxSize = uint64(lim)
 			alpha := []sym{{T: 0, D: "f", K: "n"}, {T: 0, D: "f", K: "n", Sz: 1}, {T: 0, D: "f", K: "n", Sz: 3}, {T: 0, D: "S", K: "R"}, {T: 0, D: "f", K: "r"}}
+			if variant == "ll" {
+				// a quarter of a segment is longer than a part: the segment's bytes are spread over several parts
+				alpha = []sym{{T: 0, D: "f", K: "n"}, {T: 0, D: "q", K: "n"}, {T: 0, D: "q", K: "n", Sz: 3}, {T: 0, D: "S", K: "R"}, {T: 0, D: "f", K: "r"}}
+			}
 			out = append(out, e1Scen{Prop: "C18", Cfg: cfg, Alpha: alpha, Depth: depth, Mode: "tree", Pre: 0, Name: fmt.Sprintf("size-tree-%d", lim), Start: 0, Query: "", Period: 1})
 		}
 		// video + audio: the bytes of every track count towards the limit
